@@ -9,4 +9,6 @@ pub mod oracle;
 pub mod vtgen;
 pub mod sddi;
 pub mod exprgen;
+pub mod semi;
+pub mod fnsrc;
 pub mod props;
